@@ -52,6 +52,8 @@ type Plan struct {
 	ParkInjector       bool // park every handler at an injector placed first until the drain phase
 	CancelAtStep       int  // >0: cancel the server context at that decision
 	Fences             bool // yield fences in readFrames / sendServeMsg are active
+	CaptureFences      bool // yield before every lock around the captured fingerprint data (serve loop)
+	BodyReadFences     bool // yield in noteBodyReadFromHandler (request body credit message)
 	CancelBeforeServe  bool
 	SchedKind          string // "", "rr", "priority", "random": write scheduler installed through NewWriteScheduler
 	SchedCfg           *http2.PriorityWriteSchedulerConfig
@@ -67,7 +69,8 @@ type FaultPlan struct {
 	// back-end dial indexes that are refused
 	RefuseDial []int
 	// panics injected at user callbacks: "getcert","getconfig","connstate","injector","handler" -> occurrence (1-based)
-	PanicAt map[string]int
+	PanicAt   map[string]int
+	PanicAddr string // only callbacks made for this peer address count (empty: all)
 	// error returns
 	ErrorAt map[string]int
 }
@@ -158,6 +161,7 @@ type World struct {
 	Sched         SchedStats
 	Parked        []*yieldPoint
 	draining      bool
+	captureSeq    int
 	callbackCount map[string]int
 	Stuck         bool
 	schedHash     hash.Hash
@@ -293,8 +297,32 @@ func NewWorld(t testingT, plan *Plan) *World {
 	w.rng = &pcg{s: plan.Tail}
 	http2.VerifResetPools()
 	http2.VerifYield = nil
-	if plan.Fences {
-		http2.VerifYield = func(site, remote string) { w.Yield(site + ":" + remote) }
+	if plan.Fences || plan.CaptureFences || plan.BodyReadFences {
+		http2.VerifYield = func(site, remote string) {
+			if site == "capture" {
+				if plan.CaptureFences {
+					w.mu.Lock()
+					w.captureSeq++
+					k := w.captureSeq
+					w.mu.Unlock()
+					w.Yield(fmt.Sprintf("capture#%04d", k))
+				}
+				return
+			}
+			if site == "bodyread" {
+				if plan.BodyReadFences {
+					w.mu.Lock()
+					w.captureSeq++
+					k := w.captureSeq
+					w.mu.Unlock()
+					w.Yield(fmt.Sprintf("bodyread#%05d", k))
+				}
+				return
+			}
+			if plan.Fences {
+				w.Yield(site + ":" + remote)
+			}
+		}
 	}
 
 	lw := lockedWriter{&w.mu, &w.LogBuf}
@@ -360,7 +388,7 @@ func NewWorld(t testingT, plan *Plan) *World {
 	if !plan.NoTagWrap {
 		inner := srv.HTTPServer.Handler
 		srv.HTTPServer.Handler = http.HandlerFunc(func(rw http.ResponseWriter, r *http.Request) {
-			if n := plan.Faults.PanicAt["handler"]; n > 0 && w.countCallback("handler") == n {
+			if n := plan.Faults.PanicAt["handler"]; n > 0 && w.countCallbackFrom("handler", r.RemoteAddr) == n {
 				w.Net.mu.Lock()
 				w.Net.fired("panic_handler")
 				w.Net.mu.Unlock()
@@ -403,6 +431,16 @@ func NewWorld(t testingT, plan *Plan) *World {
 	return w
 }
 
+// countCallbackFrom counts a callback occurrence only if it was made on behalf of
+// the connection the fault plan names (PanicAddr), so that an injected panic always
+// belongs to the faulty connection; returns 0 for other connections.
+func (w *World) countCallbackFrom(name, remote string) int {
+	if a := w.Plan.Faults.PanicAddr; a != "" && remote != a {
+		return 0
+	}
+	return w.countCallback(name)
+}
+
 func (w *World) countCallback(name string) int {
 	w.mu.Lock()
 	defer w.mu.Unlock()
@@ -416,7 +454,7 @@ func (w *World) installTLSFaults() {
 	if n := f.PanicAt["getcert"]; n > 0 {
 		inner := cfg.GetCertificate
 		cfg.GetCertificate = func(chi *tls.ClientHelloInfo) (*tls.Certificate, error) {
-			if w.countCallback("getcert") == n {
+			if w.countCallbackFrom("getcert", chi.Conn.RemoteAddr().String()) == n {
 				w.Net.mu.Lock()
 				w.Net.fired("panic_getcert")
 				w.Net.mu.Unlock()
@@ -439,7 +477,7 @@ func (w *World) installTLSFaults() {
 	}
 	if n := f.PanicAt["getconfig"]; n > 0 {
 		cfg.GetConfigForClient = func(chi *tls.ClientHelloInfo) (*tls.Config, error) {
-			if w.countCallback("getconfig") == n {
+			if w.countCallbackFrom("getconfig", chi.Conn.RemoteAddr().String()) == n {
 				w.Net.mu.Lock()
 				w.Net.fired("panic_getconfig")
 				w.Net.mu.Unlock()
@@ -450,7 +488,7 @@ func (w *World) installTLSFaults() {
 	}
 	if n := f.PanicAt["connstate"]; n > 0 {
 		w.Srv.HTTPServer.ConnState = func(c net.Conn, st http.ConnState) {
-			if w.countCallback("connstate") == n {
+			if w.countCallbackFrom("connstate", c.RemoteAddr().String()) == n {
 				w.Net.mu.Lock()
 				w.Net.fired("panic_connstate")
 				w.Net.mu.Unlock()
@@ -484,7 +522,7 @@ type panicInjector struct {
 
 func (p *panicInjector) GetHeaderName() string { return "X-Verif-Panic" }
 func (p *panicInjector) GetHeaderValue(r *http.Request) (string, error) {
-	if p.w.countCallback("injector") == p.at {
+	if p.w.countCallbackFrom("injector", r.RemoteAddr) == p.at {
 		p.w.Net.mu.Lock()
 		p.w.Net.fired("panic_injector")
 		p.w.Net.mu.Unlock()
@@ -725,6 +763,13 @@ func (w *World) quietAllowed(c *Client) bool {
 	c.W.mu.Unlock()
 	if i >= len(c.Plan.Steps) || !c.Plan.Steps[i].WhenQuiet || c.conn == nil {
 		return true
+	}
+	// nobody parked at a fence either: a parked goroutine may be about to write
+	w.mu.Lock()
+	parked := len(w.Yields)
+	w.mu.Unlock()
+	if parked > 0 {
+		return false
 	}
 	w.Net.mu.Lock()
 	defer w.Net.mu.Unlock()
